@@ -16,11 +16,11 @@ RULE = ('Evaluation = one table row recomputed from its member hits: min<=base<=
 ASSUMPTIONS = ['membership is read from the per-hit id columns',
                'the exclusion fall-back follows the rule stated in the code comment (not enough hits left), '
                'which is stricter than the YAML comment (empty selection)']
-REQUIRED = ['lookback_lt_all', 'exclusion_used', 'exclusion_fallback', 'tie_at_cut', 'base_gt_10000',
+REQUIRED = ['fam:exclfb', 'negative_base', 'lookback_lt_all', 'exclusion_used', 'exclusion_fallback', 'tie_at_cut', 'base_gt_10000',
             'base_near_coding_boundary', 'fam:boundary']
 SIZES = {'quick': dict(generic=380, eng=160), 'thorough': dict(generic=9000, eng=3000)}
 BOUNDARY_H = [100.0, 1999.97, 2000.0, 9999.98, 9999.999999, 10000.0, 10000.01, 10999.99, 11000.0, 12999.97,
-              13000.0, 99999.0, 0.0, 54.3]
+              13000.0, 99999.0, 0.0, -0.0, 54.3, -0.5, -56.3, -100.0, -250.0]
 
 
 def plan(tier, seed):
@@ -32,8 +32,14 @@ def plan(tier, seed):
         fam = ['bimodal', 'chain', 'chain', 'bimodal'][i % 4]
         out.append({'fam': fam, 's': seed, 'p': NUM, 'i': 100000 + i,
                     'k': {'nce': 1 + i % 3, 'exclude': 'rand', 'third': i % 8 == 0}})
+    nref = 17 * (2 if tier == 'quick' else 24)
+    for i in range(nref):        # real-world reference scenes of the repository (perturbed), random parameters
+        out.append({'fam': 'refdata', 's': seed, 'p': NUM, 'i': 700000 + i,
+                    'k': {'file': i % 17, 'perturb': (i // 17) % 5, 'default_prms': i < 17}})
     for i in range(24 if tier == 'quick' else 400):        # simultaneous hits split by the look-back cut
         out.append({'fam': 'tiecut', 's': seed, 'p': NUM, 'i': 300000 + i, 'k': {'order': scenes.ORDERS[i % 4]}})
+    for i in range(16 if tier == 'quick' else 300):        # exclusion fall-back decided on rows vs measurements
+        out.append({'fam': 'exclfb', 's': seed, 'p': NUM, 'i': 400000 + i})
     for j, h in enumerate(BOUNDARY_H):
         for nb in (0, 1, 2):      # 0: exactly h, 1: next float below, 2: next float above
             out.append({'fam': 'boundary', 'h': h, 'nb': nb, 's': seed, 'p': NUM, 'i': 200000 + 3 * j + nb})
@@ -53,8 +59,32 @@ def boundary_case(desc):
     return {'scene': sc, 'prm': {'call': {'BASE_LVL_HEIGHT_PERC': float(rng.choice([0, 5, 50, 100]))}, 'glob': {}}}
 
 
+def exclfb_case(desc):
+    """One deck seen by an excluded instrument (many hits) and by a kept one whose few hits come as
+    multi-hit measurements: kept ROWS vs kept MEASUREMENTS straddle MAX_HITS_OKTA0."""
+    rng = scenes.rng_for(desc['s'], NUM, desc['i'])
+    o0 = int(rng.choice([1, 2, 3, 5]))
+    d = int(rng.integers(1, o0 + 1))                 # kept measurements (<= o0)
+    extra = int(rng.integers(0, 3))                  # kept rows = d + extra  (may exceed o0)
+    rows = [['b', -float(t) * 15.0, 1060.0 + float(rng.normal(0, 8)), 1] for t in range(30)]
+    for m in range(d):
+        dt = -7.0 - 30.0 * m
+        rows.append(['a', dt, 960.0 + float(rng.normal(0, 3)), 1])
+    for m in range(min(extra + (o0 + 1 - d if desc['i'] % 2 else 0), d)):
+        rows.append(['a', -7.0 - 30.0 * m, 978.0 + float(rng.normal(0, 3)), 2])
+    rows = scenes.order_rows(rng, scenes.dedupe(rows), str(rng.choice(scenes.ORDERS)))
+    sc = {'rows': rows, 'names': ['a', 'b'], 'order': 'mixed', 'fam': 'exclfb'}
+    return {'scene': sc, 'prm': {'call': {'EXCLUDE_FOR_BASE_HEIGHT_CALC': ['b'], 'MAX_HITS_OKTA0': o0,
+                                          'BASE_LVL_HEIGHT_PERC': float(rng.choice([5, 50]))}, 'glob': {}}}
+
+
 def check(desc):
-    case = boundary_case(desc) if desc['fam'] == 'boundary' else pipeline.materialise(desc)
+    if desc['fam'] == 'boundary':
+        case = boundary_case(desc)
+    elif desc['fam'] == 'exclfb':
+        case = exclfb_case(desc)
+    else:
+        case = pipeline.materialise(desc)
     run = pipeline.execute(case, msgs=False)
     res = {'evals': 0, 'nontrivial': [], 'counters': {'runs': 1}, 'case': case, 'viol': []}
     if run.exc is not None:
